@@ -1353,7 +1353,10 @@ impl Sut for MR {
     fn edit(&self, actor: u64, a: &mut Args, t: &mut Out) -> Option<Self::Op> {
         // value: 8 bytes, unique per edit with high probability is NOT wanted: equal
         // nodes (same children, same value) must be exercised too
-        let val = (a.below(3) + 10 * actor).to_le_bytes().to_vec();
+        // (half of the values do not depend on the writer, so that two replicas can produce
+        // the same content-addressed node independently)
+        let x = a.next();
+        let val = (x % 3 + 10 * actor * ((x / 3) % 2)).to_le_bytes().to_vec();
         let heads = self.read().hashes();
         let children: BTreeSet<merkle_reg::Hash> = match a.below(4) {
             0 => BTreeSet::new(),
